@@ -652,7 +652,7 @@ class SymInt(object):
         b = _sext(b, bw, w)
         if ctx().branch(b == 0):
             raise ZeroDivisionError("integer division or modulo by zero")
-        q = z3.SDiv(a, b)
+        q = a / b          # bvsdiv (truncating)
         r = z3.SRem(a, b)
         adj = z3.And(r != 0, (r < 0) != (b < 0))
         q = z3.If(adj, q - 1, q)
@@ -1371,6 +1371,14 @@ class SymMemoryView(object):
 
     def __add__(self, o):
         raise TypeError("unsupported operand type(s) for +: 'memoryview'")
+
+    def __radd__(self, o):
+        ob = _elems(o)
+        if ob is None or isinstance(o, (memoryview, SymMemoryView)):
+            return NotImplemented
+        if isinstance(o, (bytearray, SymByteArray)):
+            return SymByteArray(list(ob) + self.elems())
+        return SymBytes(list(ob) + self.elems())
 
     __hash__ = None
 
